@@ -6,6 +6,7 @@ Run-time contract on the REAL prover.congc.CongClosure / CongClosureHOL:
   equations); the answers do not depend on the order of the merges; every explanation uses only merged
   equations (and congruences between merged application equations) and connects the two constants; the HOL
   wrapper's explain gives a checker-accepted theorem of the equality whose hypotheses are merged equations."""
+import os
 import itertools
 import random
 import sys
@@ -40,8 +41,8 @@ def naive_closure(consts, const_eqs, app_eqs):
 
 def run(tier='quick', seed=0):
     t0 = time.time()
-    if '/repo' not in sys.path:
-        sys.path.insert(0, '/repo')
+    if os.environ.get('HOLPY_REPO', '/repo') not in sys.path:
+        sys.path.insert(0, os.environ.get('HOLPY_REPO', '/repo'))
     from prover import congc
     rng = random.Random(seed)
     violations = []
